@@ -1187,6 +1187,14 @@ def gen_exprattr_cases(rng, exhaustive=False):
                                   'family': 'exprattr', 'params': {n: _fr(env[n]) for n in sorted(names)}})
                     if not exhaustive:
                         break
+    # the outer count as a plain STRING (signature: Union[int, str, ExpressionScalar]): fine on a named receiver (the
+    # string reaches RepetitionPT), SympifyError on a merged one (known finding with_repetition_string_count)
+    for variant, inner in (('merge', ['1', 'p', '1']), ('named', ['1', 'p', '1']), ('merge', 2), ('meas', 2)):
+        body = {'k': 'const', 'id': None, 'dur': '1', 'vals': {'A': '3/2'}, 'meas': [['m', '0', '1']]}
+        r = {'k': 'rep', 'id': 'rcv' if variant == 'named' else None, 'meas': [['k', '0', '1']] if variant == 'meas' else [],
+             'n': inner, 'body': body}
+        cases.append({'kind': 'ctor', 'step': step, 'op': 'rep', 'args': [r], 'n': ['1', 'q', '1'], 'n_str': True,
+                      'family': 'exprattr', 'params': {'p': '2', 'q': '3'} if isinstance(inner, list) else {'q': '3'}})
     # pad_to: the receiver's duration is a sum of parameter expressions
     for j, (d1, d2) in enumerate([(['1', 'p', '1'], ['1', 'p', '2']), (['0', 'p', '1'], ['2', 'p', '-1/2']),
                                   (['1', 'p', '1', 'q', '1'], None), (['2', 'q', '1'], ['0', 'p', '1'])]):
@@ -1281,10 +1289,11 @@ def ctor_call(c, a=None):
     if op in ('rep', 'pow'):
         n = c['n']
         if isinstance(n, list):
-            # an expression as outer count is handed over as ExpressionScalar (a plain string raises SympifyError on a
-            # receiver whose count is merged: ExpressionScalar * str is not defined - see notes, observation)
+            # an expression as outer count is handed over as ExpressionScalar, or (n_str) as the plain string the
+            # signature also allows: that raises SympifyError on a receiver whose count is merged (ExpressionScalar * str
+            # is not defined) - known finding with_repetition_string_count
             from qupulse.expressions import ExpressionScalar
-            n = ExpressionScalar(str(I._expr(n)))
+            n = str(I._expr(n)) if c.get('n_str') else ExpressionScalar(str(I._expr(n)))
         return a[0].with_repetition(n) if op == 'rep' else a[0] ** n
     if op == 'map':
         kw = {'parameter_mapping': {k: str(I._expr(e)) for k, e in c['pmap'].items()}} if c.get('pmap') else {}
@@ -2467,6 +2476,13 @@ def classify(case, obs):
         # the same unwritten sample (t = duration of the collapsed Sequence/RepetitionWaveform inside ReversedWaveform):
         # NaN in a fresh array, the previous content in a caller-provided one
         return 'collapsed_inside_reversal'
+    if case['kind'] == 'ctor' and case.get('op') in ('rep', 'pow') and case.get('n_str') and isinstance(case.get('n'), list) \
+            and str(obs.get('crash', '')).startswith('SympifyError'):
+        r = case['args'][0]
+        if r['k'] == 'rep' and r.get('id') is None and not r.get('meas'):
+            # the counts are merged: ExpressionScalar * str (round 6).  Any other outcome of such a call (a program that
+            # differs from the explicit nesting, another exception) is not filed here
+            return 'with_repetition_string_count'
     if 'crash' in obs or 'hang' in obs:
         return None
     if case['kind'] == 'opt':
